@@ -1,6 +1,6 @@
 SPECIFICATION Spec
 CONSTANTS
-  ModelDecoders = {"Ping::read", "Segment<TxKernel>::read", "Codec::read"}
+  ModelDecoders = {"Ping::read", "TxKernel::read", "msg::read_message<Hand>"}
   ModelLens = {0, 1, 4}
   Env <- GoodEnv
 CONSTRAINT Bounded
